@@ -171,6 +171,10 @@ func (p *pkgInfo) funcs() map[fnKey]*ast.FuncDecl {
 	for _, f := range p.files {
 		for _, d := range f.Decls {
 			if fd, ok := d.(*ast.FuncDecl); ok {
+				// code_ptralias.go: local pointer aliases `v := &P` are eliminated at source level (idempotent)
+				if notes := elimPtrAliases(fd); len(notes) > 0 {
+					ptrAliasNotes[fd] = append(ptrAliasNotes[fd], notes...)
+				}
 				m[fnKey{recvName(fd), fd.Name.Name}] = fd
 			}
 		}
